@@ -50,6 +50,12 @@ class VR(CallableModel):
         # [S]: one bound; [S,K]: mean over S of the K-sample bounds
         return log_w_mean.mean() / (1.0 - self.alpha)
 
+    def __call__(self, *args, **kwargs) -> torch.Tensor:
+        # stochastic objective: every evaluation request draws new samples
+        self.lp = self._call(*args, **kwargs)
+        self.lp_needs_update = False
+        return self.lp
+
     def handle_parameter_changed(self, variable, index, event):
         pass
 
